@@ -500,7 +500,7 @@ class C12(Monitor):
 
     def programs(self):
         out = list(spaces.with_modes(spaces.prog_Pa()))
-        n = 400 if self.tier == "quick" else 2400
+        n = 600 if self.tier == "quick" else 2400
         step = max(1, len(out) // n)
         return out[::step][:n]
 
@@ -596,8 +596,8 @@ class C12(Monitor):
                     return
             if len(seq) == 1 or seq[-1] != seq[-2]:
                 after = snapshot(st)
-                snaps.add(digest64(after))
                 if after != base:
+                    snaps.add(digest64(after))
                     which = [n for n, a, b in zip(("c", "d", "n", "jd", "jn"), base, after) if a != b]
                     stats.violation(dict(case, history=list(seq)), "argument-mutated", "%s modified %s" % (list(seq), which))
                     return
